@@ -89,14 +89,14 @@ theorem redistribute_never_panics (pts : Array (V3 K)) (point : Nat) (nf : Array
 
 theorem assignUndecidable_never_panics (pts : Array (V3 K)) :
     letI := fieldNum K sq
-    ∀ (fuel i : Nat) (und : Array Nat) (nf : Array (Facet K)), (assignUndecidable pts fuel i und nf).isSome = true := by
+    ∀ (fuel i : Nat) (und : Array Nat) (nf : Array (Facet K)), (H3.assignUndecidable pts fuel i und nf).isSome = true := by
   letI := fieldNum K sq
   intro fuel
   induction fuel with
   | zero => intro i und nf; rfl
   | succ fuel ih =>
     intro i und nf
-    unfold assignUndecidable
+    unfold H3.assignUndecidable
     split
     · rfl
     · simp only
@@ -148,7 +148,7 @@ theorem attach_never_panics (pts : Array (V3 K)) (point : Nat) (sil : Array (Nat
   have hne : ∀ (l : List Nat) (nf : Array (Facet K)),
       l.foldlM (fun nf vp => redistribute pts point nf vp) nf ≠ none := fun l nf h => by
     have := hfold l nf; rw [h] at this; exact absurd this (by simp)
-  have hne2 : ∀ (nf : Array (Facet K)), assignUndecidable pts (und.size + 1) 0 und nf ≠ none := fun nf h => by
+  have hne2 : ∀ (nf : Array (Facet K)), H3.assignUndecidable pts (und.size + 1) 0 und nf ≠ none := fun nf h => by
     have := assignUndecidable_never_panics sq pts (und.size + 1) 0 und nf; rw [h] at this; exact absurd this (by simp)
   unfold attachAndPush
   simp only [hpan, Bool.false_eq_true, if_false]
